@@ -22,6 +22,8 @@ nothing is evaluated:
                         kept on the node; `<that display>.text` -> `"x"` once a loop over the table is unrolled)
   const_getattr         `getattr(x, "name")` -> `x.name`;  statement `setattr(x, "name", v)` -> `x.name = v`;
                         statement `X.update({"a": u, ..})` -> `X["a"] = u; ..`
+  inline_generator_loops  `for T in h(a): B` with h a generator helper -> h's statements with every `yield E` replaced by `T = E; B`
+
 
 A transformation that cannot be applied safely (re-assigned names, break/continue, *args, generators, early returns) leaves the
 code as it is; the rules then see the original spelling."""
@@ -1198,6 +1200,7 @@ def expand_helpers(func, resolve):
             out.append(st)
         return out
     func.body = prepare(func.body)
+    inline_generator_loops(func, resolve)
     inline_stmt_calls(func, resolve)
     before = len(func.body), sum(1 for _ in ast.walk(func))
     inline_guard_calls(func, resolve)
@@ -1377,6 +1380,43 @@ def const_getattr(node):
                 body.extend(r if isinstance(r, list) else [r])
             node.body = body
     return ast.fix_missing_locations(node)
+
+
+class _ConstSetattr(ast.NodeTransformer):
+    """the statement `setattr(x, "name", v)` (literal identifier) is the assignment `x.name = v`"""
+
+    def visit_Expr(self, n):
+        c = n.value
+        if isinstance(c, ast.Call) and isinstance(c.func, ast.Name) and c.func.id == "setattr" and len(c.args) == 3 and not c.keywords \
+                and isinstance(c.args[1], ast.Constant) and isinstance(c.args[1].value, str) and c.args[1].value.isidentifier() \
+                and not any(isinstance(a, ast.Starred) for a in c.args):
+            tgt = ast.Attribute(value=c.args[0], attr=c.args[1].value, ctx=ast.Store())
+            return ast.fix_missing_locations(ast.copy_location(ast.Assign(targets=[tgt], value=c.args[2]), n))
+        return n
+
+    visit_FunctionDef = visit_AsyncFunctionDef = visit_ClassDef = visit_Lambda = lambda self, n: n
+
+
+def const_setattr(func):
+    """opt-in (not part of normalize_function): `setattr(x, "name", v)` statements of `func` (in place; hand in a copy) as plain
+    attribute stores -- after unroll_static_loops this reads a table `for name, v in (("a", e1), ("b", e2)): setattr(self, name, v)`
+    as `self.a = e1; self.b = e2`"""
+    tr = _ConstSetattr()
+
+    def block(stmts):
+        out = []
+        for st in stmts:
+            for fld in ("body", "orelse", "finalbody"):
+                b = getattr(st, fld, None)
+                if isinstance(b, list) and b and isinstance(b[0], ast.stmt) and not isinstance(st, (ast.FunctionDef, ast.ClassDef, ast.AsyncFunctionDef)):
+                    setattr(st, fld, block(b))
+            if isinstance(st, ast.Try):
+                for h in st.handlers:
+                    h.body = block(h.body)
+            out.append(tr.visit(st) if isinstance(st, ast.Expr) else st)
+        return out
+    func.body = block(func.body)
+    return func
 
 
 # ----------------------------------------------------------------------------------------------------- closure dispatch
@@ -1698,6 +1738,90 @@ def _single_yield(callee):
     return found[0] if len(found) == 1 else None
 
 
+# ------------------------------------------------------------------------------------------------- generator helpers
+
+def _generator_callee(callee) -> bool:
+    """a helper whose body can be merged into the loop that consumes it: a plain generator function, every `yield E` a statement of
+    its own (1..3 of them), no return, no yield from / send protocol, no try / with around the yields, no nested functions"""
+    if not isinstance(callee, ast.FunctionDef):
+        return False
+    a = callee.args
+    if a.vararg or a.kwarg or a.posonlyargs:
+        return False
+    yields, stmt_yields = 0, 0
+    for n in ast.walk(callee):
+        if n is not callee and isinstance(n, (ast.FunctionDef, ast.AsyncFunctionDef, ast.ClassDef, ast.Lambda)):
+            return False
+        if isinstance(n, (ast.YieldFrom, ast.Await, ast.Global, ast.Nonlocal, ast.Return, ast.Try, ast.With, ast.AsyncFor, ast.AsyncWith)):
+            return False
+        if isinstance(n, ast.Yield):
+            yields += 1
+            if n.value is None:
+                return False
+        if isinstance(n, ast.Expr) and isinstance(n.value, ast.Yield):
+            stmt_yields += 1
+    return 1 <= yields <= 3 and yields == stmt_yields
+
+
+def _inline_generator_loops_multi(func, resolve, max_depth: int = 2):
+    """`for T in h(args): B` with h a generator helper (resolve(call) -> (callee, receiver) | None)  ->  h's statements, parameters
+    bound to the arguments and locals made unique (as inline_stmt_calls does), with every `yield E` replaced by `T = E` followed
+    by B.  This is exactly the order in which the two pieces of code run: the generator up to its next yield, then the loop body
+    with the yielded value, then the generator again.  Not applied when B leaves or restarts the loop (break / continue / else),
+    or re-binds a name handed to the helper (the helper keeps the object it was called with)."""
+    def expand(stmts, depth):
+        out = []
+        for st in stmts:
+            for fld in ("body", "orelse", "finalbody"):
+                b = getattr(st, fld, None)
+                if isinstance(b, list) and b and isinstance(b[0], ast.stmt) and not isinstance(st, (ast.FunctionDef, ast.ClassDef, ast.AsyncFunctionDef)):
+                    setattr(st, fld, expand(b, depth))
+            if isinstance(st, ast.Try):
+                for h in st.handlers:
+                    h.body = expand(h.body, depth)
+            if isinstance(st, ast.For) and not st.orelse and depth < max_depth:
+                call = st.iter
+                # tqdm(gen(..)) hands the items through one by one
+                if isinstance(call, ast.Call) and isinstance(call.func, ast.Name) and call.func.id == "tqdm" and call.args and isinstance(call.args[0], ast.Call):
+                    call = call.args[0]
+                r = resolve(call) if isinstance(call, ast.Call) else None
+                if r is not None and r[0] is not func and _generator_callee(r[0]) and not _top_level_jumps(st.body):
+                    argnames = set().union(*[_loaded(a) for a in call.args], *[_loaded(k.value) for k in call.keywords], set())
+                    tnames = {n.id for n in ast.walk(st.target) if isinstance(n, ast.Name)}
+                    if not (argnames & (_rebound(st.body) | tnames)):
+                        res = inline_stmts(r[0], call, r[1])
+                        if res is not None:
+                            body, _ = res
+                            loop = st
+
+                            class Y(ast.NodeTransformer):
+                                def visit_Expr(self, n):
+                                    if isinstance(n.value, ast.Yield):
+                                        tgt = copy.deepcopy(loop.target)
+                                        bind = ast.Assign(targets=[tgt], value=n.value.value)
+                                        new = [bind] + [copy.deepcopy(b) for b in loop.body]
+                                        for b in new:
+                                            ast.copy_location(b, loop) if not hasattr(b, "lineno") else None
+                                            ast.fix_missing_locations(b)
+                                        return new
+                                    return n
+                            new = []
+                            for b in body:
+                                r_ = Y().visit(b)
+                                new.extend(r_ if isinstance(r_, list) else [r_])
+                            for b in new:
+                                ast.copy_location(b, st) if not hasattr(b, "lineno") else None
+                                ast.fix_missing_locations(b)
+                            out.extend(expand(new, depth + 1))
+                            continue
+            out.append(st)
+        return out
+    func.body = expand(func.body, 0)
+    return func
+
+
+
+
 def inline_generator_loops(func, resolve):
     """`for T in self._gen(args): BODY`, `_gen` a generator with ONE `yield E` reached through for / if only: the generator's
     statements with `yield E` replaced by `T = E; BODY` (parameters bound to the arguments, locals made unique) -- producer and
@@ -1738,7 +1862,8 @@ def inline_generator_loops(func, resolve):
             out.append(st)
         return out
     func.body = expand(func.body, 0)
-    return func
+    # generators with up to three yields (and tqdm(..) wrappers) are merged by the sibling pass
+    return _inline_generator_loops_multi(func, resolve)
 
 
 def scalarise_records(func, fields_of):
